@@ -9,6 +9,7 @@ import Proofs.ParseUpdate
 import Proofs.RenderExact
 import Proofs.ParseUpdateFull
 import Proofs.ParsePad
+import Proofs.OriginRoundTrip
 /-!
 # C03 — messages survive render-then-parse unchanged; compression is sound
 
@@ -122,8 +123,7 @@ do `rcode()`, `edns`, `ednsflags`, `payload`, `options`.
 The TSIG record comes back with its owner up to ASCII case and every other field identical.  When padding was
 requested (`pad ≠ 0`) the parsed OPT carries the original options followed by one PADDING option of fewer than `pad`
 zero octets (`OptPadRel`); otherwise it is the original OPT.
-What is missing for the full statement: relativisation against an origin (rendering/parsing with relative names) is
-covered by the correspondence check and the direct oracle only. -/
+Relativisation against an origin (rendering/parsing with relative names) is `parse_render_origin` below. -/
 theorem parse_render_partial (m : Message) (lim : Nat) (w : Bytes) (hok : MsgOkP eqvSpec m) (h : m.toWire lim false = .ok w)
     (cfg : PCfg) (horg : cfg.origin = none) (hnorr : cfg.oneRRPerRRset = false) (hkey : cfg.hasKey = true) :
     ∃ m' opt', parseMessage cfg w = .ok m' ∧ m'.simT eqvSpec { m with opt := opt' } ∧ OptPadRel m.pad m.opt opt' ∧
@@ -177,6 +177,107 @@ theorem parse_render_partial (m : Message) (lim : Nat) (w : Bytes) (hok : MsgOkP
 owner repeats the question name in another case and whose targets share its suffix, and an opaque A record set -/
 example : MsgOkP eqvSpec { id := 7, flags := 33152, pad := 16, opt := some { ttl := 16809984, payload := 1232, options := [(10, [1,2,3,4,5,6,7,8])] }, tsig := some { name := [[107],[101,120],[]], alg := [[104,109,97,99],[]], time := 1700000000, fudge := 300, mac := [1,2,3,4], origId := 7, error := 0, other := [] }, q := [{ name := [[119,119,119],[101,120],[]], rdclass := 1, rdtype := 2 }], an := [{ name := [[87,87,87],[69,88],[]], rdclass := 1, rdtype := 2, ttl := 5, rdatas := [.name1 [[110,115],[101,120],[]], .name1 [[110,116],[101,120],[]]] }], ad := [{ name := [[110,115],[101,120],[]], rdclass := 1, rdtype := 1, ttl := 5, rdatas := [.raw [192,0,2,1]] }] } := by
   have wf : ∀ n : Name, n ∈ [[[119,119,119],[101,120],[]], [[87,87,87],[69,88],[]], [[110,115],[101,120],[]], [[110,116],[101,120],[]]] → NameOk eqvSpec none n := by
+    intro n hn
+    simp at hn
+    rcases hn with rfl | rfl | rfl | rfl <;> exact ⟨_, rfl, by refine ⟨?_, ?_, ?_⟩ <;> decide, rfl, trivial⟩
+  refine ⟨⟨rfl, by decide, by decide, by decide, ?_, rfl, ?_, ?_, ?_, ?_, ?_, ?_, ?_, ?_, by decide⟩, ?_⟩
+  rotate_right
+  · intro o ho; simp at ho; subst ho; decide
+  · intro o ho; simp at ho; subst ho
+    refine ⟨by decide, by decide, ?_, by decide, trivial⟩
+    intro p hp; simp at hp; subst hp; exact ⟨by decide, by decide⟩
+  · intro t ht; simp at ht; subst ht
+    exact ⟨⟨_, rfl, by refine ⟨?_, ?_, ?_⟩ <;> decide, rfl, trivial⟩, by refine ⟨?_, ?_, ?_⟩ <;> decide, rfl, by decide, by decide,
+      by decide, by decide, by decide, by decide, by decide⟩
+  · intro r hr; simp at hr; subst hr
+    exact ⟨wf _ (by simp), by decide, by decide, rfl, rfl, rfl, rfl⟩
+  · intro r hr; simp at hr; subst hr
+    refine ⟨wf _ (by simp), by decide, by decide, by decide, by decide, rfl, by simp, ?_, by decide, by decide⟩
+    intro rd hrd; simp at hrd
+    rcases hrd with rfl | rfl
+    · exact ⟨wf _ (by simp), by decide, by decide⟩
+    · exact ⟨wf _ (by simp), by decide, by decide⟩
+  · intro r hr; simp at hr
+  · intro r hr; simp at hr; subst hr
+    refine ⟨wf _ (by simp), by decide, by decide, by decide, by decide, rfl, by simp, ?_, by decide, by decide⟩
+    intro rd hrd; simp at hrd; subst hrd
+    exact ⟨trivial, by decide, by decide⟩
+  · simp
+  · simp
+  · simp
+
+/-- Origins, parser side, for *every* octet string `w` (accepted or not, produced by the renderer or not):
+`from_wire(w, origin=o)` is `from_wire(w)` followed by `relativize(o)` of the owner names and of the names inside the
+RDATA of the four sections (`relF o`: cut `o` off when it is a suffix up to ASCII case, else keep the absolute name).
+The owner names of the OPT and TSIG records and the TSIG algorithm name are *not* relativized (commit 4655a6b: the
+root-owner check of OPT and the TSIG key lookup see the absolute name), the error raised is the same, and the section
+index (`find_rrset`) and `Rdataset.add` merge exactly the same records, because relativisation is injective up to
+ASCII case on the absolute legal names the wire decoder produces (`relF_lower_iff`). -/
+theorem parse_origin_commutes (cfg : PCfg) (o : Name) (ho : isAbs o = true) (hc : cfg.origin = none) (w : Bytes) :
+    parseMessage { cfg with origin := some o } w =
+      match parseMessage cfg w with
+      | .ok m => .ok { m.mapNames (relF o) with origin := some o }
+      | .error e => .error e :=
+  parseMessage_relF cfg o ho hc w
+
+/-- Origins, renderer side, for every message, limit and mode: rendering with origin `o` produces exactly the octets
+(or the error) of rendering, without origin, the message in which every relative name `n` of the four sections has been
+replaced by `n + o` (`derelativize`); the OPT owner (root) and the TSIG owner (required absolute) never see the origin. -/
+theorem render_origin_absolutize (m : Message) (o : Name) (hm : m.origin = some o) (ho : isAbs o = true) (lim : Nat)
+    (pt : Bool) : m.toWire lim pt = (m.absolutize o).toWire lim pt :=
+  (toWire_absolutize m o hm ho lim pt).symm
+
+/-- "messages rendered with an origin / parsed with an origin: equal after relativisation".  `m` carries the absolute
+origin `o` and may mix relative and absolute names; guard: the absolutized message is well formed in the sense of
+`parse_render_partial` (`MsgOkP`: in particular every `n + o` is a legal name; OPT, padding, TSIG allowed; not an UPDATE —
+for those see `update_forms_origin`).  Then parsing the rendering with the same origin succeeds, the parsed message
+carries the origin, and it equals — up to the ASCII case of names, OPT up to the padding option, TSIG owner absolute as
+rendered — the *relativisation* `m.relNorm o` of `m` (every name made absolute against `o`, then relativized against
+`o`).  For a message all of whose names are normal (relative, or absolute and not at or below `o` — what `from_wire`,
+`from_text` and `make_query` with that origin produce) `m.relNorm o` is `m` itself, so the round trip returns `m`. -/
+theorem parse_render_origin (m : Message) (o : Name) (hm : m.origin = some o) (ho : isAbs o = true) (lim : Nat) (w : Bytes)
+    (hok : MsgOkP eqvSpec (m.absolutize o)) (h : m.toWire lim false = .ok w)
+    (cfg : PCfg) (horg : cfg.origin = none) (hnorr : cfg.oneRRPerRRset = false) (hkey : cfg.hasKey = true) :
+    ∃ m' opt', parseMessage { cfg with origin := some o } w = .ok m' ∧ m'.origin = m.origin ∧
+      m'.simT eqvSpec { m.relNorm o with opt := opt' } ∧ OptPadRel m.pad m.opt opt' ∧
+      (m.Normal o → m'.simT eqvSpec { m with opt := opt' }) := by
+  obtain ⟨m', opt', hp, horg', hs, hr⟩ := parse_toWire_origin m o hm ho lim w hok h cfg horg hnorr hkey
+  refine ⟨m', opt', hp, by rw [horg', hm], hs, hr, ?_⟩
+  intro hn
+  rw [Message.relNorm_normal o ho m hn] at hs
+  exact hs
+
+/-- `update_forms` with an origin: the same for dynamic updates rendered and parsed with origin `o` -/
+theorem update_forms_origin (m : Message) (o : Name) (hm : m.origin = some o) (ho : isAbs o = true) (zc lim : Nat)
+    (w : Bytes) (hok : UMsgOkT eqvSpec ((m.absolutize o).canonUpdate zc)) (h : m.toWire lim false = .ok w)
+    (cfg : PCfg) (horg : cfg.origin = none) (hkey : cfg.hasKey = true) :
+    ∃ m', parseMessage { cfg with origin := some o } w = .ok m' ∧ m'.origin = some o ∧
+      m'.simT eqvSpec (((m.absolutize o).canonUpdate zc).mapNames (relF o)) :=
+  parse_toWire_update_origin m o hm ho zc lim w hok h cfg horg hkey
+
+/-- non-vacuity of `parse_render_origin`: origin `ex.`; question `www` (relative), an NS record set at `WWW` (relative,
+other case) with a relative target `ns` and an absolute one outside the origin (`ns.o.`), an A record at `ns`, an OPT
+record with padding and a TSIG record whose (absolute) key name `k.ex.` lies below the origin: all names are normal and
+the absolutized message is well formed -/
+example : ∃ (m : Message) (o : Name), m.origin = some o ∧ isAbs o = true ∧ m.Normal o ∧ MsgOkP eqvSpec (m.absolutize o) := by
+  refine ⟨{ id := 7, flags := 33152, origin := some [[101,120],[]], pad := 16, opt := some { ttl := 16809984, payload := 1232, options := [(10, [1,2,3,4,5,6,7,8])] }, tsig := some { name := [[107],[101,120],[]], alg := [[104,109,97,99],[]], time := 1700000000, fudge := 300, mac := [1,2,3,4], origId := 7, error := 0, other := [] }, q := [{ name := [[119,119,119]], rdclass := 1, rdtype := 2 }], an := [{ name := [[87,87,87]], rdclass := 1, rdtype := 2, ttl := 5, rdatas := [.name1 [[110,115]], .name1 [[110,115],[111],[]]] }], ad := [{ name := [[110,115]], rdclass := 1, rdtype := 1, ttl := 5, rdatas := [.raw [192,0,2,1]] }] },
+    [[101,120],[]], rfl, rfl, ?_, ?_⟩
+  · refine ⟨?_, ?_, ?_, ?_⟩
+    · intro r hr; simp at hr; subst hr
+      exact ⟨Or.inl rfl, by intro rd hrd; simp at hrd⟩
+    · intro r hr; simp at hr; subst hr
+      refine ⟨Or.inl rfl, ?_⟩
+      intro rd hrd; simp at hrd
+      rcases hrd with rfl | rfl
+      · intro n hn; simp [RData.names] at hn; subst hn; exact Or.inl rfl
+      · intro n hn; simp [RData.names] at hn; subst hn; exact Or.inr (by decide)
+    · intro r hr; simp at hr
+    · intro r hr; simp at hr; subst hr
+      refine ⟨Or.inl rfl, ?_⟩
+      intro rd hrd; simp at hrd; subst hrd
+      intro n hn; simp [RData.names] at hn
+  show MsgOkP eqvSpec { id := 7, flags := 33152, pad := 16, opt := some { ttl := 16809984, payload := 1232, options := [(10, [1,2,3,4,5,6,7,8])] }, tsig := some { name := [[107],[101,120],[]], alg := [[104,109,97,99],[]], time := 1700000000, fudge := 300, mac := [1,2,3,4], origId := 7, error := 0, other := [] }, q := [{ name := [[119,119,119],[101,120],[]], rdclass := 1, rdtype := 2 }], an := [{ name := [[87,87,87],[101,120],[]], rdclass := 1, rdtype := 2, ttl := 5, rdatas := [.name1 [[110,115],[101,120],[]], .name1 [[110,115],[111],[]]] }], ad := [{ name := [[110,115],[101,120],[]], rdclass := 1, rdtype := 1, ttl := 5, rdatas := [.raw [192,0,2,1]] }] }
+  have wf : ∀ n : Name, n ∈ [[[119,119,119],[101,120],[]], [[87,87,87],[101,120],[]], [[110,115],[101,120],[]], [[110,115],[111],[]]] → NameOk eqvSpec none n := by
     intro n hn
     simp at hn
     rcases hn with rfl | rfl | rfl | rfl <;> exact ⟨_, rfl, by refine ⟨?_, ?_, ?_⟩ <;> decide, rfl, trivial⟩
